@@ -50,11 +50,20 @@ class VCGen:
         self.counters = {}
         self.fresh_n = 0
         self.loop_n = 0
+        self.roles = {}   # role -> program variable name; roles are assigned by initializer pattern / event ordinal, never by the name itself
 
     # ---- helpers ---------------------------------------------------------------------------------------------------
     def ev(self, kind):
         self.counters[kind] = self.counters.get(kind, 0) + 1
         return f"{kind}#{self.counters[kind]}"
+
+    def role(self, prefix, event, name):
+        self.roles[f"{prefix}{event.split('#')[1]}"] = name
+
+    def var(self, st, role):
+        """program variable bound to a role (None if not bound yet)"""
+        nm = self.roles.get(role)
+        return st.v.get(nm) if nm else None
 
     def fresh(self, base, sort):
         self.fresh_n += 1
@@ -81,7 +90,8 @@ class VCGen:
             k = self.expr(e.slice, st)
             _, has, val = st.v[e.value.id]
             self.oblige(f"safety:keyerror:{self.ev('getsub')}", st, z3.Select(has, k[1]))
-            return (self.spec.DICT_VAL.get(e.value.id, "int"), z3.Select(val, k[1]))
+            drole = next((r for r, nm in self.roles.items() if nm == e.value.id and r.startswith("D") and not r.startswith("DP")), None)
+            return (self.spec.DICT_VAL.get(drole, "int"), z3.Select(val, k[1]))
         if isinstance(e, ast.Subscript) and isinstance(e.value, ast.Name) and st.v.get(e.value.id, ("",))[0] == "pair":
             if isinstance(e.slice, ast.Constant) and e.slice.value in (0, 1):
                 return self.spec.project(st.v[e.value.id][1], e.slice.value)
@@ -132,22 +142,28 @@ class VCGen:
         if isinstance(s, ast.Assign) and len(s.targets) == 1 and isinstance(s.targets[0], ast.Name):
             name, v = s.targets[0].id, s.value
             if isinstance(v, ast.Dict) and not v.keys:
-                K, V = S.DICT_SORTS[name] if name in S.DICT_SORTS else S.DICT_SORTS["*"]
+                K, V = S.DICT_SORTS["*"]
                 st.v[name] = ("dict", z3.K(K, z3.BoolVal(False)), self.fresh(name + "_val", z3.ArraySort(K, V)))
-                self.hook(self.ev("newdict"), st, name=name)
+                e_ = self.ev("newdict")
+                self.role("D", e_, name)
+                self.hook(e_, st, name=name)
                 return [st]
             if isinstance(v, ast.Dict) and len(v.keys) == 1:
-                K, V = S.DICT_SORTS[name] if name in S.DICT_SORTS else S.DICT_SORTS["*"]
+                K, V = S.DICT_SORTS["*"]
                 k = self.expr(v.keys[0], st)
                 val = self.tuple_or_expr(v.values[0], st)
                 st.v[name] = ("dict", z3.Store(z3.K(K, z3.BoolVal(False)), k[1], True), z3.Store(self.fresh(name + "_val", z3.ArraySort(K, V)), k[1], val))
-                self.hook(self.ev("newdict"), st, name=name)
+                e_ = self.ev("newdict")
+                self.role("D", e_, name)
+                self.hook(e_, st, name=name)
                 return [st]
             if isinstance(v, ast.List) and len(v.elts) == 1:
                 x = self.expr(v.elts[0], st)
                 arr = z3.Store(self.fresh(name + "_arr", z3.ArraySort(z3.IntSort(), x[1].sort())), 0, x[1])
                 st.v[name] = ("list", arr, z3.IntVal(1))
-                self.hook(self.ev("newlist"), st, name=name)
+                e_ = self.ev("newlist")
+                self.role("L", e_, name)
+                self.hook(e_, st, name=name)
                 return [st]
             if isinstance(v, ast.Call) and isinstance(v.func, ast.Attribute) and v.func.attr == "pop" and isinstance(v.func.value, ast.Name):
                 c = st.v.get(v.func.value.id)
@@ -156,7 +172,9 @@ class VCGen:
                     self.oblige(f"safety:pop-from-empty:{self.ev('popsafe')}", st, ln > 0)
                     st.v[name] = (S.ELEM_KIND, z3.Select(arr, ln - 1))
                     st.v[v.func.value.id] = ("list", arr, ln - 1)
-                    self.hook(self.ev("pop"), st, var=name, lst=v.func.value.id)
+                    e_ = self.ev("pop")
+                    self.role("P", e_, name)
+                    self.hook(e_, st, var=name, lst=v.func.value.id)
                     return [st]
                 if c and c[0] == "dict" and len(v.args) == 1:
                     k = self.expr(v.args[0], st)
@@ -164,7 +182,9 @@ class VCGen:
                     self.oblige(f"safety:keyerror:{self.ev('dictpop')}", st, z3.Select(has, k[1]))
                     st.v[name] = self.unpack_val(z3.Select(val, k[1]))
                     st.v[v.func.value.id] = ("dict", z3.Store(has, k[1], False), val)
-                    self.hook(self.ev("dpop"), st, var=name, key=k[1])
+                    e_ = self.ev("dpop")
+                    self.role("DP", e_, name)
+                    self.hook(e_, st, var=name, key=k[1])
                     return [st]
             if isinstance(v, ast.Call):
                 r = S.call(self, st, name, v)
@@ -293,6 +313,7 @@ class VCGen:
         mod = self.modified(s.body) | (self.modified([ast.Assign(targets=[s.target], value=ast.Constant(0))]) if kind == "for" else set())
         ghosts = spec["ghost_modified"]
         if kind == "for":
+            self.roles[f"IT{lid}"] = [n_.id for n_ in ast.walk(s.target) if isinstance(n_, ast.Name)]
             self.spec.for_init(self, st, lid, s)
         self.hook(f"loophead#{lid}", st)
         for name, goal in spec["invariant"](self, st):
